@@ -41,6 +41,7 @@ class Shadow:
         self.branches = []        # shadow: list of dict(obj, nodes[list], closed, ticked[set of id])
         self.byid = {}
         self.snap = {}            # id(branch) -> (tuple(node ids), closed) at last check
+        self.recorded = {}        # (id(branch), id(node)) -> (step added, step ticked) as first recorded
         self.hist_len = 0
         self.trunk_events = [0, 0]
         self.finish_events = 0
@@ -215,6 +216,22 @@ class Shadow:
             raise Fail('open-view', 'open view lists %d branches, %d are unclosed (or order differs)' % (len(tab.open), len(opens)))
         # stat() step numbers
         K = Tableau.StatKey
+        for i, b in enumerate(tab):
+            for n in b:
+                try:
+                    st = tab.stat(b, n)
+                except KeyError:
+                    continue
+                rec = (num(st[K.STEP_ADDED]), None if st[K.STEP_TICKED] is None else num(st[K.STEP_TICKED]))
+                if rec[1] is not None and not b.is_ticked(n):
+                    raise Fail('stat', 'tick recorded at step %s for a node of branch #%d that is not ticked there' % (rec[1], i))
+                old = self.recorded.get((id(b), id(n)))
+                if old is not None:
+                    if old[0] != rec[0] or (old[1] is not None and old[1] != rec[1]):
+                        raise Fail('stat', 'recorded steps of a node on branch #%d changed after the fact: (added, ticked) %s -> %s' % (i, old, rec))
+                self.recorded[(id(b), id(n))] = rec
+                if b.closed and rec[1] is not None and rec[1] > num(tab.stat(b)[K.STEP_CLOSED]):
+                    raise Fail('stat', 'tick recorded at step %s after branch #%d closed at step %s' % (rec[1], i, tab.stat(b)[K.STEP_CLOSED]))
         for i, b in enumerate(tab):
             last = 0
             for n in b:
@@ -414,7 +431,8 @@ def replay(ctx, spec):
 
 def key_of(clause, msg):
     # the first word of the message names the attribute / event concerned
-    return '%s|%s' % (clause, msg.split()[0])
+    w = msg.split()[0]
+    return '%s|%s' % (clause, w if w.isidentifier() else clause)
 
 def _key(cfg):
     v, _, _ = judge(cfg)
